@@ -28,9 +28,6 @@ def known_class(fmt, ch, text, cat, script=None, line=None):
     # RAW/DWVW has no header: the frame count is an estimate from the file length
     if fmt.major == 0x04 and fmt.codec in (0x40, 0x41, 0x42) and cat in ("short", "eof", "data", "count", "position", "frames"):
         return "KF-RAW-DWVW-FRAMES"
-    # PAF24 stages 2048 items per inner call; channel counts that do not divide 2048 split a frame
-    if fmt.major == 0x05 and fmt.codec == 0x03 and 2048 % ch != 0 and cat in ("data",):
-        return "KF-PAF24-CHUNK"
     return None
 
 
